@@ -757,6 +757,9 @@ func (e *Engine) applyAts(s *State, fr *Frame, anchor, when string, cc *ssa.Call
 			s.assume(t)
 		case "stop":
 			// the rest of the function is outside the clauses under proof on this root
+			if at.Clause.Tag != "" && currentPropID != "" && !strings.HasPrefix(at.Clause.Tag, currentPropID) {
+				break
+			}
 			s.dead = true
 		case "set":
 			env := e.mkEnv(s, fr, vars, vtypes)
